@@ -17,6 +17,7 @@ func init() {
 			ruleX3(c)
 			ruleX4(c)
 			ruleX5(c)
+			ruleX6(c)
 		},
 		explanation: "Decides the fail-stop structure of the multiplexer: every exit of the reader loop other than the one taken on the done channel is preceded on every path by latching the error and closing the mux (including the queue-overflow branch), and a partially written frame does the same in write; every close() of a channel stored in a struct field of the net and multiplex packages runs inside a sync.Once body or under a lock behind a test-and-set flag; every blocking receive of those packages has a channel that some close path closes (a connection's Read selects on its done channel, which conn.close closes, which mux.Close calls for every registered connection; Accept's channel is closed by Close); Write tests the done channel before writing, the first error is latched once and error() never yields nil; closing the mux is never reachable with its own once or the connection lock already held.",
 		notDecided: []string{
@@ -87,6 +88,28 @@ func ruleX1(c *Ctx) {
 			}
 		}
 		c.ok("X1", key, r.Pos(), bad == "", "the reader exit latches the error and closes the mux on every path", bad)
+	}
+	// after a failed trunk read the reader never reads again
+	_, treads := trunkUses(m)
+	for i, tr := range treads {
+		if tr.Parent() != rd {
+			continue
+		}
+		call, ok := tr.(*ssa.Call)
+		if !ok {
+			continue
+		}
+		bad := ""
+		fbs := errFailBlocks(call)
+		if len(fbs) == 0 {
+			bad = "the error of the trunk read is not tested"
+		}
+		for _, fb := range fbs {
+			if canReach(fb, call.Block()) || fb == call.Block() {
+				bad = "after a failed trunk read the reader can go on reading: bytes of a partly consumed frame are taken for a header (or a frame is skipped), so readers see damaged or missing frames instead of an error"
+			}
+		}
+		c.ok("X1", fmt.Sprintf("reader/read-error-final#%d", i+1), tr.Pos(), bad == "", "a failed trunk read ends the reader", bad)
 	}
 	if n < 3 {
 		c.violate("X1", "reader/exits", rd.Pos(), "the reader has abnormal exits for header error, payload error and queue overflow", fmt.Sprintf("only %d abnormal exits found", n))
@@ -536,4 +559,61 @@ func isLatchClose(m *Module, g, setErr, closeM *ssa.Function) bool {
 		}
 	}
 	return true
+}
+
+// ruleX6: the listener wrapper hands its connection out once.
+func ruleX6(c *Ctx) {
+	m := c.M
+	c.rule("X6", "listener wrapper: NewConnListener queues the wrapped connection exactly once on a channel of capacity >= 1; Accept returns io.EOF when the channel yields nothing (closed); Close closes the wrapped connection", 3)
+	nl := m.fn(pkgNet, "NewConnListener")
+	var mk *ssa.MakeChan
+	sends := 0
+	for _, b := range nl.Blocks {
+		for _, in := range b.Instrs {
+			switch x := in.(type) {
+			case *ssa.MakeChan:
+				mk = x
+			case *ssa.Send:
+				if x.X == ssa.Value(nl.Params[0]) {
+					sends++
+					if inLoop(b) {
+						sends++
+					}
+				}
+			}
+		}
+	}
+	capOK := false
+	if mk != nil {
+		if n, ok := constInt(mk.Size); ok && n >= 1 {
+			capOK = true
+		}
+	}
+	c.ok("X6", "NewConnListener", nl.Pos(), capOK && sends == 1, "the wrapped connection is queued exactly once, without blocking", fmt.Sprintf("capacity>=1: %v, sends of the connection: %d — Accept hands the connection out twice, never, or the constructor blocks", capOK, sends))
+	ac := m.method(pkgNet, "connListener", "Accept")
+	okEOF := false
+	for _, r := range returnsOf(ac) {
+		for _, v := range returnValues(r, 1) {
+			if u, ok := v.(*ssa.UnOp); ok {
+				if g, ok := u.X.(*ssa.Global); ok && g.Name() == "EOF" {
+					// on the branch where the received connection is nil
+					for _, cd := range controls(r.Block()) {
+						cd = normCond(cd)
+						if bo, ok := cd.V.(*ssa.BinOp); ok && isNilConst(bo.Y) && ((bo.Op == token.EQL && cd.Pol) || (bo.Op == token.NEQ && !cd.Pol)) {
+							okEOF = true
+						}
+					}
+				}
+			}
+		}
+	}
+	c.ok("X6", "Accept", ac.Pos(), okEOF, "Accept reports io.EOF once the listener is closed", "Accept does not return io.EOF when the channel is closed: the ttrpc server's accept loop spins or returns a nil connection")
+	cl := m.method(pkgNet, "connListener", "Close")
+	okC := false
+	for _, ci := range calls(cl) {
+		if ci.Common().IsInvoke() && ci.Common().Method.Name() == "Close" && m.ap(ci.Common().Value).PathString() == "conn" {
+			okC = true
+		}
+	}
+	c.ok("X6", "Close", cl.Pos(), okC, "closing the listener closes the wrapped connection", "the wrapped connection is not closed")
 }
